@@ -182,11 +182,53 @@ def build(b, spec):
     return obj
 
 
+def _call(kind, obj, a):
+    if kind == "hg":
+        from hypergraphx.generation.configuration_model import configuration_model
+        kw = {"n_steps": a["n_steps"], "label": a["label"], "detailed": a["detailed"]}
+        if a["size"]:
+            if a["spelled"] == "order":
+                kw["order"] = a["size"] - 1
+            else:
+                kw["size"] = a["size"]
+        return configuration_model(obj, **kw)
+    from hypergraphx.generation.directed_configuration_model import directed_configuration_model
+    return directed_configuration_model(obj)
+
+
+def edit_into(b, obj, spec):
+    """public calls that turn the object (built from spec["before"]["edges"]) into one holding spec["edges"]"""
+    kind = spec["kind"]
+    key = (lambda e: (frozenset(e[0]), frozenset(e[1]))) if kind == "dir" else frozenset
+    api = (lambda e: (b._tuple(e[0]), b._tuple(e[1]))) if kind == "dir" else b._tuple
+    target = {key(api(e)): e for e in spec["edges"]}
+    with quiet():
+        for e in list(obj.get_edges()):
+            if key(e) not in target:
+                obj.remove_edge(e)
+        present = {key(e) for e in obj.get_edges()}
+        for k, e in target.items():
+            if k not in present:
+                obj.add_edge(api(e))
+
+
 def execute(spec):
     """spec -> trace (list of events for Trace_C13); everything needed to re-run is in spec"""
     kind = spec["kind"]
     b = Binding(kind, LABEL_FAMILIES[spec["family"]](spec["n"]), random.Random(spec["order_seed"]))
-    obj = build(b, spec)
+    if spec.get("before"):
+        # history of the OBJECT: it held other hyperedges (as many), the model was run on it, it was edited in place
+        obj = build(b, dict(spec, edges=spec["before"]["edges"]))
+        np.random.seed(spec["np_seed"] ^ 0x5bd1)
+        random.seed(spec["py_seed"] ^ 0x5bd1)
+        try:
+            with quiet():
+                _call(kind, obj, spec["before"]["args"])
+        except Exception:
+            pass
+        edit_into(b, obj, spec)
+    else:
+        obj = build(b, spec)
     inp = b.state(obj)
     a = spec["args"]
     _drain()
@@ -195,18 +237,7 @@ def execute(spec):
     ok, err, out = True, "", None
     try:
         with quiet():
-            if kind == "hg":
-                from hypergraphx.generation.configuration_model import configuration_model
-                kw = {"n_steps": a["n_steps"], "label": a["label"], "detailed": a["detailed"]}
-                if a["size"]:
-                    if a["spelled"] == "order":
-                        kw["order"] = a["size"] - 1
-                    else:
-                        kw["size"] = a["size"]
-                out = configuration_model(obj, **kw)
-            else:
-                from hypergraphx.generation.directed_configuration_model import directed_configuration_model
-                out = directed_configuration_model(obj)
+            out = _call(kind, obj, a)
         if out is None:
             ok, err = False, "returned None"
     except Exception as ex:
@@ -258,6 +289,34 @@ def plan(rng, tier):
             specs.append({"kind": "dir", "n": n, "edges": [[list(s), list(t)] for s, t in ks], "family": FAMS[len(specs) % 4],
                           "args": {}, "np_seed": rng.randrange(2 ** 31), "py_seed": rng.randrange(2 ** 31),
                           "order_seed": rng.randrange(2 ** 31)})
+    # histories of the object (own generator: the specs above stay what they were for a seed): in a quarter of the specs the object
+    # held as many hyperedges of OTHER sizes before, the model was run on it with the same arguments, it was edited in place
+    hrng = random.Random(rng.randrange(1 << 30))
+    for sp in specs:
+        if hrng.random() >= 0.25:
+            continue
+        n, es = sp["n"], [e for e in sp["edges"]]
+        if sp["kind"] == "hg":
+            have = {tuple(e) for e in es}
+            prev = list(es)
+            for j in hrng.sample(range(len(es)), min(len(es), hrng.randint(1, 2))):
+                for _ in range(20):
+                    z = hrng.choice([x for x in range(1, min(5, n) + 1) if x != len(es[j])] or [len(es[j])])
+                    c = tuple(sorted(hrng.sample(range(1, n + 1), z)))
+                    if c not in have:
+                        have.add(c)
+                        prev[j] = list(c)
+                        break
+        else:
+            have = {(tuple(e[0]), tuple(e[1])) for e in es}
+            prev = list(es)
+            for j in hrng.sample(range(len(es)), min(len(es), hrng.randint(1, 2))):
+                for c in dir_keys(hrng, n, 6):
+                    if c not in have:
+                        have.add(c)
+                        prev[j] = [list(c[0]), list(c[1])]
+                        break
+        sp["before"] = {"edges": prev, "args": dict(sp["args"])}
     return specs
 
 
@@ -315,9 +374,11 @@ def judge(res, specs, traces, labels, rejects):
             nprop += 1
             ret = traces[t][-1]
             res.reject({"function": which, "clauses": prop, "detailed": sp["args"].get("detailed"),
-                        "sized": bool(sp["args"].get("size"))},
-                       "%s(%s) on hyperedges %s (labels %s, numpy seed %d, random seed %d): clause(s) %s fail%s"
-                       % (which, ", ".join("%s=%s" % kv for kv in sp["args"].items()), sp["edges"], labels[t], sp["np_seed"],
+                        "sized": bool(sp["args"].get("size")), "object_history": bool(sp.get("before"))},
+                       "%s(%s) on hyperedges %s%s (labels %s, numpy seed %d, random seed %d): clause(s) %s fail%s"
+                       % (which, ", ".join("%s=%s" % kv for kv in sp["args"].items()), sp["edges"],
+                          " [the object held %s before, the model was run on it, it was edited in place]" % sp["before"]["edges"]
+                          if sp.get("before") else "", labels[t], sp["np_seed"],
                           sp["py_seed"], ",".join(prop), "" if ret["ok"] else " (call raised %s)" % ret["err"]),
                        {"spec": sp, "labels": labels[t], "failing_clauses": prop, "input": traces[t][0]["inp"],
                         "output": ret["out"], "ok": ret["ok"], "err": ret["err"], "logged_steps": len(traces[t]) - 2})
@@ -366,6 +427,7 @@ def run(tier, seed):
             runs_where_hyperedges_coincided=coinc, runs_with_logged_chain=hooked,
             chain_steps_validated=sum(len(t) - 2 for t in traces if t[0]["haschain"]),
             distinct_inputs=len({(s["kind"], json.dumps(s["edges"])) for s in specs}),
+            runs_on_object_edited_in_place_after_an_earlier_run=sum(1 for s in specs if s.get("before")),
             hooks_present=bool(hooked))
     for t in (traces[0], traces[-1]):
         res.sample({"args": t[0]["args"], "input_hyperedges": [e["k"] for e in t[0]["inp"]["edges"]],
